@@ -494,7 +494,14 @@ func codeSpanContent(n *ast.CodeSpan, src []byte) string {
 	var buf strings.Builder
 	for c := n.FirstChild(); c != nil; c = c.NextSibling() {
 		if t, ok := c.(*ast.Text); ok {
-			buf.Write(t.Segment.Value(src))
+			// a line ending inside a code span reads as a space (CommonMark 6.1)
+			value := t.Segment.Value(src)
+			if bytes.HasSuffix(value, []byte("\n")) {
+				buf.Write(value[:len(value)-1])
+				buf.WriteByte(' ')
+			} else {
+				buf.Write(value)
+			}
 		}
 	}
 	return buf.String()
